@@ -1,6 +1,7 @@
 package main
 
 import (
+	"strings"
 	"fmt"
 
 	"github.com/mfcochauxlaberge/jsonapi"
@@ -19,7 +20,7 @@ func (c17) Size(tier string) Size {
 	return Size{Batches: 4, Cases: 2500}
 }
 func (c17) Rule() string {
-	return "case = one type spec (0-8 attributes over the 28 kinds, 0-3 relationships) materialised twice, as a soft type and as a reflect.StructOf struct, and ONE history of 1-40 well-typed Set calls (pool values, typed and untyped nil, Set on id) applied to both side by side; after every call every field of both is read back and compared with a last-writer-wins map model; fresh resources from Type.New, SoftResource.New, Wrapper.New must read all-zero with the type's name and fields. Equality laws (reflexive, symmetric, false on every single-change pair: type name, field name, one value, ID) on resources derived from the final state. Non-trivial = history touching >= 2 fields with >= 1 overwrite."
+	return "case = one type spec (0-8 attributes over the 28 kinds, 0-3 relationships) materialised twice, as a soft type and as a reflect.StructOf struct, and ONE history of 1-40 well-typed Set calls (pool values, typed and untyped nil, Set on id) applied to both side by side; after every call every field of both is read back and compared with a last-writer-wins map model; fresh resources from Type.New, SoftResource.New, Wrapper.New must read all-zero with the type's name and fields. Equality laws (reflexive, symmetric, false on every single-change pair: type name, field name, one value, ID) on resources derived from the final state. Type-name pairs include a soft type without a name and a case variant. Non-trivial = history touching >= 2 fields with >= 1 overwrite."
 }
 func (c17) Assumptions() []string {
 	return []string{"normalisation stated by the property: untyped nil == typed nil pointer for nullable kinds; nil byte slice == empty byte slice; nil []string == empty list",
@@ -39,11 +40,11 @@ func (c17) Floors(tier string, c map[string]int64) []string {
 }
 
 type c17call struct {
-	Field string   `json:"field"`
-	Val   *Val     `json:"val,omitempty"`
-	One   *string  `json:"to_one,omitempty"`
-	Many  []string `json:"to_many,omitempty"`
-	IsMany bool    `json:"is_many,omitempty"`
+	Field  string   `json:"field"`
+	Val    *Val     `json:"val,omitempty"`
+	One    *string  `json:"to_one,omitempty"`
+	Many   []string `json:"to_many,omitempty"`
+	IsMany bool     `json:"is_many,omitempty"`
 }
 
 func genC17Type(r *RNG, name string) TypeSpec {
@@ -316,11 +317,11 @@ func differentVal(v Val) Val {
 
 func (m c17) equalityLaws(c *Ctx, specs []*TypeSpec, state *ResSpec) {
 	type pair struct {
-		class string
-		t1    TypeSpec
-		r1    ResSpec
-		t2    TypeSpec
-		r2    ResSpec
+		class      string
+		t1         TypeSpec
+		r1         ResSpec
+		t2         TypeSpec
+		r2         ResSpec
 		strictOnly bool
 	}
 	clone := func(rs *ResSpec) ResSpec {
@@ -344,6 +345,16 @@ func (m c17) equalityLaws(c *Ctx, specs []*TypeSpec, state *ResSpec) {
 		t2 := *t
 		t2.Name = t.Name + "x"
 		pairs = append(pairs, pair{class: "type-name", t1: *t, r1: clone(state), t2: t2, r2: clone(state)})
+		if !t.Wrapped {
+			// ... including against a type without a name (a SoftResource whose type was never named) and a case variant
+			t5, t6 := *t, *t
+			t5.Name = ""
+			t6.Name = strings.ToUpper(t.Name[:1]) + t.Name[1:]
+			pairs = append(pairs, pair{class: "type-name/empty", t1: *t, r1: clone(state), t2: t5, r2: clone(state)})
+			if t6.Name != t.Name {
+				pairs = append(pairs, pair{class: "type-name/case", t1: *t, r1: clone(state), t2: t6, r2: clone(state)})
+			}
+		}
 		// ID
 		r2 := clone(state)
 		r2.ID = state.ID + "x"
